@@ -220,6 +220,39 @@ impl DltChar4 {
 //@|    ensures true, // O:asc.logcat.apid_msg_no_overflow (whatever the length of the tag)
 //@ end
 
+// Asc2DltMsgIterator::next, a comment line `// BusMapping: CAN 1 = name`: the byte-offset slices that locate the channel number
+// (entry fact: RE_COMMENT `^//` matched, the line starts with two ASCII characters)
+#[verifier::external_body]
+pub fn vx_str_from_b<'a>(s: &'a str, a: usize) -> (r: &'a str)
+    requires a <= blen(s), boundary(s, a as int), // O:asc.slice.char_boundary.from
+    ensures blen(r) == blen(s) - a, forall|k: int| 0 <= k <= blen(s) - a ==> (boundary(r, k) == boundary(s, a + k)),
+{ &s[a..] }
+// str::trim: a sub-slice between two boundaries (which ones is not needed)
+#[verifier::external_body]
+pub fn vx_trim<'a>(s: &'a str) -> (r: &'a str) ensures blen(r) <= blen(s) { s.trim() }
+// str::starts_with(ASCII literal of n bytes): the text then has at least n bytes and a boundary after each of the first n
+#[verifier::external_body]
+pub fn vx_starts_with_ascii(s: &str, n: usize) -> (r: bool)
+    ensures r ==> blen(s) >= n && forall|k: int| 0 <= k <= n ==> boundary(s, k),
+{ unimplemented!() }
+// str::find(' '): the byte offset of an ASCII character - a boundary before and after it
+#[verifier::external_body]
+pub fn vx_find_space(s: &str) -> (r: Option<usize>)
+    ensures r is Some ==> r->Some_0 < blen(s) && boundary(s, r->Some_0 as int) && boundary(s, r->Some_0 + 1),
+{ s.find(' ') }
+//@ extract src/utils/asc2dltmsgiterator.rs region `let comment = &line[2..].trim();` .. `if comment.starts_with("BusMapping: CAN") {` in <Iterator for Asc2DltMsgIterator>::next
+//@   sig pub fn asc_busmapping_slices(line: &str) -> (r: usize)
+//@   sub R11 `&line[2..].trim()` => `&vx_trim(vx_str_from_b(line, 2))`
+//@   sub R11 `comment.starts_with("BusMapping: CAN")` => `vx_starts_with_ascii(comment, 15)`
+//@   sub R11 `comment[14..].find(' ')` => `vx_find_space(vx_str_from_b(comment, 14))`
+//@   sub R11 `if let Some((id, name)) = comment[id_idx..].split_once('=') { __ }` => `let vx_rest = vx_str_from_b(comment, id_idx); return id_idx;`
+//@   tail `0`
+//@   spec
+//@|    requires blen(line) >= 2, boundary(line, 2), // the line starts with `//`
+//@|        blen(line) <= isize::MAX, // (Rust: no allocation exceeds isize::MAX bytes)
+//@|    ensures true, // O:asc.busmapping.no_panic
+//@ end
+
 // get_apid_for_tag: the numbering loop for a tag that has no APID yet (R12: the per-namespace map is opaque; R11: the candidate - the `match`
 // on the tag's length with the snake-case / camel-case abbreviation and get_4digit_str - is cut to a stub: any four characters).
 // What is proved: the loop ends and its counter does not overflow, whatever the map holds (every candidate may be taken).
